@@ -651,5 +651,95 @@ theorem scaleCoord_spec (s : Bool) (m : ℕ) (e : ℤ) (hm : m < 2 ^ 53) (he1 : 
     · rw [if_pos h5, z2]; norm_num
     · rw [if_neg h5]; norm_num
 
+/-- `x + 10^5` rounds to `10^5` for `−2^(−37) ≤ x < 0` (half an ulp of `10^5`; the tie goes to the even neighbour `10^5`) -/
+theorem isRN_wrap (v : ℚ) (h1 : -(2:ℚ) ^ (-(37:ℤ)) ≤ v) (h2 : v < 0) : IsRN 53 (-1074) (v + 100000) 100000 where
+  zero := fun hz => by
+    exfalso
+    have h37 : (2:ℚ) ^ (-(37:ℤ)) < 1 := by
+      have : (2:ℚ) ^ (-(37:ℤ)) < (2:ℚ) ^ (0:ℤ) := two_zpow_lt_iff.mpr (by norm_num)
+      simpa using this
+    linarith
+  nz := fun _ => by
+    have h37 : (2:ℚ) ^ (-(37:ℤ)) < 1 := by
+      have : (2:ℚ) ^ (-(37:ℤ)) < (2:ℚ) ^ (0:ℤ) := two_zpow_lt_iff.mpr (by norm_num)
+      simpa using this
+    have hpos : 0 < v + 100000 := by linarith
+    have e36 : (2:ℚ) ^ (-(36:ℤ)) = 2 * (2:ℚ) ^ (-(37:ℤ)) := by
+      rw [show (-(36:ℤ)) = 1 + -(37) by norm_num, two_zpow_split]; norm_num
+    have emax : max ((17:ℤ) - (53:ℕ)) (-1074) = -36 := by norm_num
+    refine ⟨17, 100000 * 2 ^ 36, ?_, ?_, ?_, ?_, ?_⟩
+    · rw [abs_of_pos hpos]; norm_num; linarith
+    · rw [abs_of_pos hpos]; norm_num; linarith
+    · rw [emax]
+      push_cast
+      rw [zpow_neg]
+      norm_num
+    · rw [emax, e36]
+      have : (100000:ℚ) - (v + 100000) = -v := by ring
+      rw [this, abs_of_pos (by linarith)]
+      linarith
+    · intro _
+      norm_num
+
+/-- **class G18-1**: for `−2^(−37) ≤ x < 0` whose quotient by the tile does not underflow, tile `−1` is selected, the
+computed offset is the tile size `10^5` itself, `i1 = 10^min(p,5)` (its low `min(p,5)` digits are all 0) and `i2 = 0` -/
+theorem scaleCoord_wrap (s : Bool) (m : ℕ) (e : ℤ) (hm : m < 2 ^ 53) (he1 : -1074 ≤ e) (he0 : e ≤ 0) (p : ℕ) (hp : p ≤ 11)
+    (h1 : -(2:ℚ) ^ (-(37:ℤ)) ≤ (F64.fin s m e).val) (h2 : (F64.fin s m e).val < 0)
+    (hnu : (2:ℚ) ^ (-(1075:ℤ)) < -((F64.fin s m e).val / 100000)) :
+    scaleCoord (F64.fin s m e) p = ⟨-1, 10 ^ (min p 5), 0⟩ := by
+  set v := (F64.fin s m e).val with hv
+  have hx : HasVal (F64.fin s m e) v := hasVal_fin s m e
+  have hg : OnGrid v := onGrid_fin s m e hm he1 he0
+  have h37 : (2:ℚ) ^ (-(37:ℤ)) < 1 := by
+    have : (2:ℚ) ^ (-(37:ℤ)) < (2:ℚ) ^ (0:ℤ) := two_zpow_lt_iff.mpr (by norm_num)
+    simpa using this
+  have hb : |v| ≤ 10 ^ 7 := by rw [abs_le]; constructor <;> norm_num <;> linarith
+  have hn1 : (((-1:ℤ)):ℚ) ≤ v / 100000 := by push_cast; rw [le_div_iff₀ (by norm_num)]; linarith
+  have hn2 : v / 100000 < (((-1:ℤ)):ℚ) + 1 := by push_cast; rw [div_lt_iff₀ (by norm_num)]; linarith
+  have htile : fl (F64.fin s m e / F64.ofInt osgb_tile) = -1 := by
+    rcases tile_floor hx hg hb (-1) hn1 hn2 with h | ⟨_, hU⟩
+    · exact h
+    · exfalso; push_cast at hU; linarith
+  obtain ⟨r, hr, hval, _, _, _, _⟩ := offset_rounded hx (by linarith) h2
+  have hr100 : r = 100000 := IsRN.unique (by norm_num) hr (isRN_wrap v h1 h2)
+  rw [hr100] at hval
+  have hgr : OnGrid (100000:ℚ) := ⟨100000, 0, by norm_num, by norm_num, by norm_num, by norm_num⟩
+  rw [scaleCoord_eq, htile]
+  have hd := digits_of_offset hval hgr (by norm_num) (le_refl _) p hp
+  obtain ⟨d1, d2⟩ := hd
+  by_cases h5 : p ≤ 5
+  · obtain ⟨a, b⟩ := d1 h5
+    have hm5 : min p 5 = p := by omega
+    have hfl : ⌊(100000:ℚ) / 10 ^ (5 - p)⌋ = 10 ^ p := by
+      have : (100000:ℚ) / 10 ^ (5 - p) = ((10 ^ p : ℤ) : ℚ) := by
+        have h5' : (100000:ℚ) = 10 ^ p * 10 ^ (5 - p) := by
+          rw [← pow_add, show p + (5 - p) = 5 by omega]; norm_num
+        rw [h5']; push_cast; field_simp
+      rw [this, Int.floor_intCast]
+    rw [a, b, hfl, hm5]
+  · have h5' : 5 < p := by omega
+    obtain ⟨a, b⟩ := d2 h5'
+    have hm5 : min p 5 = 5 := by omega
+    have hfl : ⌊(100000:ℚ)⌋ = 100000 := by
+      have : (100000:ℚ) = ((100000:ℤ):ℚ) := by norm_num
+      rw [this, Int.floor_intCast]
+    rw [hfl] at a b
+    have hz : ((100000:ℚ) - ((100000:ℤ):ℚ)) * 10 ^ (p - 5) = 0 := by push_cast; ring
+    rw [hz] at b
+    have hfl0 : ⌊(0:ℚ)⌋ = 0 := Int.floor_zero
+    rw [hfl0] at b
+    obtain ⟨_, hc⟩ := b
+    have hi2 : (if p > 5 then fl ((offset (F64.fin s m e) (-1) - F64.floor (offset (F64.fin s m e) (-1) / pow10 (5 - p))) * pow10 (p - 5)) else 0) = 0 := by
+      rcases hc with h | ⟨_, _, hbad⟩
+      · exact h
+      · exfalso
+        have hC : (2:ℚ) ^ (-(1075:ℤ)) < 1 := by
+          have : (2:ℚ) ^ (-(1075:ℤ)) < (2:ℚ) ^ (0:ℤ) := two_zpow_lt_iff.mpr (by norm_num)
+          simpa using this
+        simp only [Int.cast_zero, abs_zero, zero_mul, zero_add, sub_zero] at hbad
+        rcases le_max_iff.mp hbad with h | h <;> linarith
+    rw [a, hi2, hm5]
+    norm_num
+
 end OSGBScale
 end GeoVerif
